@@ -103,8 +103,7 @@ def project(stage, model, ctx):
         if a is not None and model.economics.DoAddOnCalculations.value:
             r = record(a, model)
             if r is not None:
-                r['out']['lcoc'] = '0'  # the add-on recomputation discards LCOC
-                r['q']['eC'] = r['q']['eC']
+                r['out']['lcoc'] = 'undef'  # the add-on recomputation discards LCOC: nothing reported, clause skipped
                 ctx['c01_addon'] = r
     except Exception as ex:  # noqa: BLE001
         ctx['c01_unexplained'] = f'{type(ex).__name__}: {ex}'
